@@ -434,7 +434,7 @@ where
     #[must_use]
     pub fn rank_prefetch(&self, symbol: T, i: usize) -> Option<usize> {
         if i > self.n
-            || symbol.as_() >= self.codes_encode.len()
+            || symbol.to_usize().map_or(true, |s| s >= self.codes_encode.len())
             || self.codes_encode[symbol.as_() as usize].len == 0
         {
             return None;
@@ -696,7 +696,7 @@ where
     #[inline(always)]
     fn rank(&self, symbol: Self::Item, i: usize) -> Option<usize> {
         if i > self.n
-            || symbol.as_() >= self.codes_encode.len()
+            || symbol.to_usize().map_or(true, |s| s >= self.codes_encode.len())
             || self.codes_encode[symbol.as_()].len == 0
         {
             return None;
@@ -785,7 +785,7 @@ where
     #[must_use]
     #[inline(always)]
     fn select(&self, symbol: Self::Item, i: usize) -> Option<usize> {
-        if symbol.as_() >= self.codes_encode.len()
+        if symbol.to_usize().map_or(true, |s| s >= self.codes_encode.len())
             || self.codes_encode[symbol.as_() as usize].len == 0
         {
             return None;
